@@ -155,7 +155,13 @@ def optRes (s : OptMon) (tid : Nat) (opName : String) (a b : Nat) (res : String)
       match s.recs.find? (·.var == a), hexNat nv with
       | some r, some newv =>
         if okS == "1" then
-          if opName == "cverify" && e.op != "load" then { s with nChecksOk := s.nChecksOk + 1 }  -- owning composite guard: no read
+          if opName == "cverify" && e.op != "load" then
+            -- owning composite guard: no read.  A genuine shared grant keeps every writer out, so no exclusive section
+            -- can have been committed on that lock since the guard was obtained
+            let s := { s with nChecksOk := s.nChecksOk + 1 }
+            if r.ver == 2 ^ 32 && !((s.pubsOf r.lk).drop r.idx).isEmpty then
+              s.flag s!"version: VerifyVersion of an owning composite guard succeeded although an exclusive section was committed on its lock since PrepareRead returned (published since: {(s.pubsOf r.lk).drop r.idx}) [composite guard]"
+            else s
           else
           let s := { s with nChecksOk := s.nChecksOk + 1 }
           let s := if wX e.rd || wVer e.rd != r.ver then
@@ -209,7 +215,8 @@ def optRes (s : OptMon) (tid : Nat) (opName : String) (a b : Nat) (res : String)
         if own == "1" then
           let s := if e.op != "cas" || !e.ok || wX e.rd || wSIX e.rd || wS e.rd != 0 then
               s.flag s!"prepare: PrepareRead took a shared lock from word {e.rd} (not completely free)" else s
-          { s with recs := s.recs.filter (·.var != a) }
+          -- record of an owning guard: version 2^32 (no real version), publications counted from here
+          { s with recs := (s.recs.filter (·.var != a)) ++ [{ var := a, lk := b, ver := 2 ^ 32, idx := (s.pubsOf b).length }] }
         else
           let s := if e.op != "load" || wX e.rd || wVer e.rd != ver then
               s.flag s!"prepare: PrepareRead returned version {ver} but its decisive read saw word {e.rd}" else s
